@@ -36,6 +36,11 @@ func fixURLHost(u *url.URL) {
 		return
 	}
 	i := strings.IndexRune(u.Path, '/')
+	if i == -1 {
+		// bare host without any path, like 't.me': all of it is the host, the path is empty
+		u.Host, u.Path = u.Path, ""
+		return
+	}
 	u.Host = u.Path[:i]
 	u.Path = u.Path[i:]
 }
